@@ -69,6 +69,13 @@ func runC05(env *Env, tier string) {
 		}
 		return I
 	}
+	nsent := 0
+	// the application of one side answers every Logon it is shown with an order, from inside the callback: the
+	// message is numbered while the session is in the middle of the logon
+	sendOnLogon := ""
+	if ch.Chance("sendonlogon", 1, 4) {
+		sendOnLogon = []string{"I", "A"}[ch.Choose("sendonlogonside", 2)]
+	}
 	start := func(s *c05Side) {
 		eng, err := NewEngine(env, w, s.cfg)
 		if err != nil {
@@ -77,6 +84,14 @@ func runC05(env *Env, tier string) {
 		s.eng = eng
 		side := s
 		eng.App.OnCall = func(c AppCall) {
+			if c.Kind == "FromAdmin" && c.Type == "A" && side.name == sendOnLogon && !eng.Dead {
+				nsent++
+				id := fmt.Sprintf("%s%d", side.name, nsent)
+				if err := eng.Send("D", AppBody(id)); err == nil {
+					side.sent = append(side.sent, id)
+				}
+				env.Stat("probe_send_from_logon_callback")
+			}
 			if c.Kind != "FromApp" {
 				return
 			}
@@ -180,7 +195,6 @@ func runC05(env *Env, tier string) {
 		}
 		return len(I.got) < len(A.sent) || len(A.got) < len(I.sent)
 	}
-	nsent := 0
 	halfOpenUntil := time.Time{}
 	refuseUntil := time.Time{}
 	steps := 15 + ch.Choose("steps", 66)
